@@ -48,6 +48,10 @@ def seq_to_list(v):
 
 def _solve_one(job):
     name, smt2, input_names, timeout_s, use_cvc5, smt2_ranged = job
+    if "/vacuity[" in name:
+        # vacuity probe: only a quick refutation attempt (unsat = the path is infeasible); sat/unknown is the
+        # expected outcome and not worth a long search
+        return _z3_once(name, smt2, input_names, 5)
     res = _solve_plain((name, smt2, input_names, timeout_s, use_cvc5))
     if res["result"] == "sat" and smt2_ranged is not None:
         # second pass with 0..255 element ranges on bytes inputs (true facts about the inputs)
